@@ -298,8 +298,9 @@ class NeedExpand(Exception):
 
 
 class NeedChoice(Exception):
-    def __init__(self, mark):
+    def __init__(self, mark, blind=False):
         self.mark = mark
+        self.blind = blind  # the construct is consumed without its first token being inspected: only empty / non-empty matters
 
 
 class NeedVariant(Exception):
@@ -928,8 +929,8 @@ class Run:
                         raise NeedChoice(m)
                 raise StubMismatch(f"{name} entered at token {i} ({self.describe(i)}) where no {sorted(accepts)} construct starts")
             if isinstance(n, Mark):
-                if n.first is None and gx.g.nullable[n.nt] and False:
-                    raise NeedChoice(n)
+                if n.first is None and gx.g.nullable[n.nt]:
+                    raise NeedChoice(n, blind=True)
                 self.consumed_marks.add(id(n))
             else:
                 n.consumed = True
@@ -996,6 +997,10 @@ class Run:
         except (NeedExpand, NeedChoice, NeedVariant):
             raise
         except gx.ParseError as e:
+            if errs:
+                msg, coord = errs[-1]
+                if not (isinstance(coord, gx.Coord) or coord == "f.c"):
+                    return Outcome("bad-error-location", f"ParseError {msg!r} is located at {coord!r}: neither a coordinate nor the file name", None, self)
             return Outcome("parse-error", str(e), None, self)
         except StubMismatch as e:
             return Outcome("stub-mismatch", str(e), None, self)
@@ -1094,6 +1099,8 @@ def explore(gx: GX, method: str, nt: str, prod: Prod, flat, shape, follow: List[
         except NeedChoice as e:
             m = e.mark
             cands = gx.class_reps(gx.g.first[m.nt])
+            if getattr(e, "blind", False):
+                cands = cands[:1]
             if gx.g.nullable[m.nt]:
                 cands = cands + [""]
             for c in cands:
